@@ -156,9 +156,9 @@ def rule_e(repo, chk):
     node_param = params(f)[-1]
     rets = stmts_in(f, ast.Return)
     chk.floor('C18.e', len(rets), 1, '(returns of create_instance_context)')
-    for r in rets:
-        ok = isinstance(r.value, ast.Call) and call_name(r.value) == 'create_context' and len(r.value.args) == 1 and norm(r.value.args[0]) == node_param
-        chk.ob('C18.e', ok, r, 'create_instance_context returns <method context>.create_context(%s)' % node_param, 'returns %s' % short(r.value))
+    w = must_pass(f, lambda n: node_has(n, lambda x: isinstance(x, ast.Call) and call_name(x) == 'create_context' and len(x.args) == 1
+                                        and norm(x.args[0]) == node_param))
+    chk.ob('C18.e', w is None, f, 'every return of create_instance_context has descended with <method context>.create_context(%s)' % node_param, w or '')
     sn = repo.find('jedi.inference.value.instance', 'SelfName.parent_context')
     ok = any(call_name(c) == 'create_instance_context' and len(c.args) == 2 and norm(c.args[1]) == 'self.tree_name' for c in calls_in(sn))
     chk.ob('C18.e', ok, sn, 'SelfName.parent_context asks for the context of its own tree name')
